@@ -242,10 +242,6 @@ def check_property(prop, targets, *, tier="quick", assumptions=(), trusted_base=
                     n_obl += 1
                 continue
             # refuted
-            if is_bounded:
-                n_bounded_obl += 1
-            else:
-                n_obl += 1
             sig = o.get("key")
             if sig is None:
                 if getattr(tgt, "classify", None):
@@ -257,8 +253,14 @@ def check_property(prop, targets, *, tier="quick", assumptions=(), trusted_base=
                     sig = source_line(r.get("source_file"), o.get("where")) or (o.get("where") or "")
             key = f"{r['target']}|{o['name']}|{sig}"
             if key in known:
+                # a recorded known finding: NOT part of what is claimed proved (reported separately
+                # in coverage.known_finding_obligations), so obligations == discharged stays true
                 known_hits.append((key, known[key]))
                 continue
+            if is_bounded:
+                n_bounded_obl += 1
+            else:
+                n_obl += 1
             violations.append((r, o, key))
 
     # replay refutations natively
@@ -317,6 +319,7 @@ def check_property(prop, targets, *, tier="quick", assumptions=(), trusted_base=
         "obligations_by_backend": by_solver,
         "solver_secs": round(solver_secs, 2),
         "known_findings_matched": sorted({k for k, _ in known_hits}),
+        "known_finding_obligations": len(known_hits),  # refuted, covered by a recorded known finding: not counted in obligations / discharged
         "bounded_standin_obligations": n_bounded_obl,
         "bounded_standin_discharged": n_bounded_dis,
         "bounded_standins": bounded_standins or [],
